@@ -76,3 +76,6 @@ N("c08-n-lock-flag-nested", "C08", A, "Lock.acquire",
   "            if self._fast_acquire:\n                return\n\n            try:\n                await AsyncIOBackend.cancel_shielded_checkpoint()\n            except CancelledError:\n                self.release()\n                raise\n\n            return\n\n        if self._owner_task == task:")
 N("c08-n-filterfalse-early-flag-test", "C08", IT, "filterfalse", "    if not element_yielded:\n        await checkpoint()", "    if element_yielded:\n        return\n\n    await checkpoint()")
 N("c08-n-cycle-always-cp", "C08", IT, "cycle", "    if not saved:\n        await checkpoint()\n        return", "    if not saved:\n        await checkpoint_if_cancelled()\n        await cancel_shielded_checkpoint()\n        return")
+# from seeded change C08/c (round 2)
+M("c08-event-adapter-wait-fast-path", "C08", SYNC, "EventAdapter.wait", "        await self._event.wait()", "        if self._internal_event is None and self._is_set:\n            await checkpoint_if_cancelled()\n            return\n\n        await self._event.wait()", ["R08-a"])
+M("c08-lock-adapter-aenter-nowait", "C08", SYNC, "LockAdapter.__aenter__", "        await self._lock.acquire()", "        self._lock.acquire_nowait()", ["R08-a"])
